@@ -239,7 +239,8 @@ def check_diff_decl(d):
         return "ok", "%s = p(%s) - p(%s), both from %s" % (n, Y, X, a[0])
     if (a[1], b[1]) == (X, Y):
         return "bad", "%s is named 'from %s to %s' but is computed as p(%s) - p(%s): the vector points the other way" % (n, X, Y, X, Y)
-    return "bad", "%s is named 'from %s to %s' but is computed from the positions of %s and %s" % (n, X, Y, a[1], b[1])
+    # other point names (e.g. a contact point C that is instantaneously coincident with a station F) carry no decidable claim
+    return "unchecked", "%s ('from %s to %s') is computed from the positions of %s and %s: different point names, not judged" % (n, X, Y, a[1], b[1])
 
 
 def check_assign(e):
